@@ -18,6 +18,9 @@ type Published struct {
 	Topic     string
 	Payload   json.RawMessage
 	Persisted int
+	// Live: the message as handed over (a bus that queues messages — watermill's go-channel copies share the payload slice —
+	// lets its subscribers read these bytes after Publish returned)
+	Live *message.Message
 }
 
 type Publisher struct {
@@ -34,7 +37,7 @@ func (p *Publisher) Publish(topic string, messages ...*message.Message) error {
 	p.mu.Lock()
 	defer p.mu.Unlock()
 	for _, m := range messages {
-		p.Msgs = append(p.Msgs, Published{Topic: topic, Payload: append(json.RawMessage{}, m.Payload...), Persisted: p.Store.Len()})
+		p.Msgs = append(p.Msgs, Published{Topic: topic, Payload: append(json.RawMessage{}, m.Payload...), Persisted: p.Store.Len(), Live: m})
 	}
 	return nil
 }
